@@ -168,6 +168,8 @@ pub enum Op {
     Reinsert(u8),
     /// use every dead token with enable/disable/update/remove
     ProbeDead,
+    /// insert and remove a trivial source n times in a row (slot reuse, generation growth)
+    Churn(u16),
 }
 
 #[derive(Clone, Copy, Debug, PartialEq, Eq, Serialize, Deserialize, Hash)]
